@@ -289,6 +289,11 @@ func checkErrSiteIn(c *core.Ctx, rule string, s errSite, unit *ssa.Function) {
 		return c.P.InScope(callee) && callee.Signature.Results().Len() >= 2 && takesError(callee) && callsNothing(callee)
 	}
 	x.Hooks.Call = func(x *absint.Exec, st *absint.State, site ssa.CallInstruction, callee *ssa.Function, fnv absint.Value, args []absint.Value) (absint.Value, bool) {
+		if site == s.call && st.Data["hit"] == "1" {
+			// the call fails once: a later execution of the same call (the next round of a loop) is an ordinary call,
+			// so a result that the next round overwrites is seen to be lost
+			return nil, false
+		}
 		if site == s.call {
 			st.SetData("hit", "1")
 			sig := site.Common().Signature()
